@@ -845,3 +845,42 @@ def c05_api(text, kind, nums, seps):
     exec(src[src.index('def api_verdict(text, kind, nums, seps):'):src.index('def obligations(tier):')], ns)
     why = ns['api_verdict'](text, kind, nums, seps)
     return why is not None, f'{text!r}: {why}'
+
+
+# ------------------------------------------------------------------ C08
+@replay('c08_spelling')
+def c08_spelling(text, spelled, n, m, D, E):
+    import pytrs
+    if D is None or E is None:
+        got = pytrs.find_twprge(text, default_ns='n', default_ew='w', preprocess=True)
+        canon = f'T{int(n)}{(D or "N")[0].upper()}-R{int(m)}{(E or "W")[0].upper()}'
+    else:
+        got = pytrs.find_twprge(text, preprocess=True)
+        canon = f'T{int(n)}{D[0].upper()}-R{int(m)}{E[0].upper()}'
+    pp = pytrs.PLSSDesc(text + '\nSec 14: NE/4').pp_desc
+    return canon not in got or canon not in pp, f'{text!r}: find_twprge {got}, pp_desc {pp!r}, expected {canon}'
+
+
+@replay('c08_api')
+def c08_api(text, default_ns, default_ew, expect):
+    import pytrs
+    got = pytrs.find_twprge(text, default_ns=default_ns, default_ew=default_ew, preprocess=True)
+    d = pytrs.PLSSDesc(text, config=','.join(x for x in (default_ns, default_ew) if x))
+    return got != [expect] or expect not in d.pp_desc, f'{text!r}: find_twprge {got}, pp_desc {d.pp_desc!r}, expected {expect}'
+
+
+@replay('c08_defaults')
+def c08_defaults(text, cns, cew, kns, kew, mns, mew, how):
+    import os
+    import pytrs
+    src = open(os.path.join(os.path.dirname(__file__), 'c08.py')).read()
+    ns = {}
+    exec(src[src.index('def defaults_verdict('):src.index('# ------------------------------------------------------------------ S: rendered spellings')], ns)
+    MC = pytrs.MasterConfig
+    save = (MC.default_ns, MC.default_ew)
+    MC.default_ns, MC.default_ew = mns, mew
+    try:
+        why = ns['defaults_verdict'](text, cns, cew, kns, kew, how)
+    finally:
+        MC.default_ns, MC.default_ew = save
+    return why is not None, f'{why}'
